@@ -77,6 +77,15 @@ claim("C05", "other",
       "symbolic execution with LAPACK contract stubs + polynomial reduction modulo orthonormality hypotheses + z3",
       "DESIGN.md section 1, C05")
 
+claim("C06", "other",
+      "Representation invariant as one-step induction: add/scale/move_qnidx/Mpo.apply/Mpo.conj_trans with SYMBOLIC integer labels, qntot and operator charge (all values "
+      "at once); the real _update_mps (one/two-site, truncating or not) from an arbitrary valid pre-state; constructors (hartree_product_state for every occupation and "
+      "centre, Mps.random with symbolic draws, ground_state, MpDm.max_entangled_*); masks. Together with the invariant obligations inside C03/C04/C05 every chain operation "
+      "maps valid states to valid states with the advertised sector shift.",
+      "Whole optimiser/evolution loops are covered by composition of the step lemmas, not executed end to end; LAPACK by contract; trees under C11.",
+      "symbolic execution with symbolic integer labels (z3 LIA+NRA) and LAPACK contract stubs",
+      "DESIGN.md section 1, C06")
+
 for pid in ["C%02d" % i for i in range(1, 21)]:
     if pid not in CHECKS:
         NA[pid] = "check not built yet (build in progress; see DESIGN.md)"
